@@ -364,6 +364,9 @@ def run_replay_file(path):
     hang = re.search(r"^// hang_test (\w+)", txt, re.M)
     if hang:
         names = [hang.group(1)]
+    witness = re.search(r"^// witness_test (\w+)", txt, re.M)
+    if witness:
+        names = [witness.group(1)]
     scratch = os.path.join(CACHE, "replay", hname)
     shutil.rmtree(scratch, ignore_errors=True)
     if crate == "profirust":
